@@ -5,7 +5,7 @@ import operator
 from ..core import Acc, Violation, run_hypothesis, shard_seed
 
 PROPERTY = 'C20'
-RULE = ('operator x (value, unit) x operand x form {Quantity-op-number, number-op-Quantity, Quantity-op-Quantity, unary, '
+RULE = ('operator x (value, unit) x operand x form {Quantity-op-number, number-op-Quantity, Quantity-op-Quantity, Quantity-op-itself, unary, '
         'conversion, three-argument pow}: outcome(op on Quantity(v,u)) must equal outcome(op on v) where an outcome is '
         '(result type, repr of result) or the exception type. Complete product of a catalogue of ints/floats (0, -0.0, '
         '+-1, 2, 3, 7, -5, 0.5, -1.5, 1e308, 5e-324, +-2**64, inf, -inf, nan, True) plus Hypothesis ints/floats. '
@@ -94,6 +94,9 @@ def check(case):
             want, got = outcome(fn, v, x), outcome(fn, q, x)
         elif form == 'nq':
             want, got = outcome(fn, x, v), outcome(fn, x, q)
+        elif form == 'self':
+            # the same Quantity object on both sides (q op q) must behave like v op v
+            want, got = outcome(fn, v, v), outcome(fn, q, q)
         else:
             u2 = case.get('u2')
             q2 = Q(x, u2)
@@ -121,7 +124,7 @@ def enumerate_cases(shard, of):
                     for op in table:
                         if not safe(op, v, x) or not safe(op, x, v):
                             continue
-                        for form in ('qn', 'nq'):
+                        for form in ('qn', 'nq') + (('self',) if x is CAT[0] else ()):
                             i += 1
                             if i % of == shard:
                                 yield {'kind': kind, 'op': op, 'form': form, 'v': enc(v), 'u': u, 'x': enc(x)}
@@ -137,7 +140,7 @@ def enumerate_cases(shard, of):
 
 
 def is_nontrivial(case, want):
-    if want[0] == 'raises' or case.get('form') in ('nq', 'qq'):
+    if want[0] == 'raises' or case.get('form') in ('nq', 'qq', 'self'):
         return True
     ops = [dec(case['v'])] + ([dec(case['x'])] if 'x' in case else [])
     return any(nontrivial_operand(o) for o in ops)
@@ -176,7 +179,7 @@ def run(part, args, env):
             'kind': st.just('bin'), 'op': st.sampled_from(sorted(BINOPS)), 'form': st.sampled_from(['qn', 'nq', 'qq']),
             'v': num.map(enc), 'u': unit, 'x': num.map(enc), 'u2': unit})
         cmpc = st.fixed_dictionaries({
-            'kind': st.just('cmp'), 'op': st.sampled_from(sorted(CMPOPS)), 'form': st.sampled_from(['qn', 'nq', 'qq']),
+            'kind': st.just('cmp'), 'op': st.sampled_from(sorted(CMPOPS)), 'form': st.sampled_from(['qn', 'nq', 'qq', 'self']),
             'v': num.map(enc), 'u': unit, 'x': num.map(enc), 'u2': unit | st.just(None)})
         unc = st.fixed_dictionaries({'kind': st.just('un'), 'op': st.sampled_from(sorted(UNOPS)), 'v': num.map(enc), 'u': unit})
         p3 = st.fixed_dictionaries({'kind': st.just('pow3'), 'op': st.just('pow3'), 'v': num.map(enc), 'u': unit,
